@@ -460,7 +460,7 @@ func c03Reference(op string, l, r c03Type) (accept, ok bool) {
 
 // genCheckerPointer: `#` is typed by the innermost collection (contract of checker.visitor.PointerNode).
 func genCheckerPointer(w *World, res *CheckResult) {
-	for _, n := range []string{"checker.visitor.PointerNode", "checker.indexType", "checker.visitor.checkFunc", "checker.visitor.BuiltinNode", "checker.fieldType", "checker.Check", "conf.FieldsFromStruct", "checker.dereference"} {
+	for _, n := range []string{"checker.visitor.PointerNode", "checker.indexType", "checker.visitor.checkFunc", "checker.visitor.BuiltinNode", "checker.fieldType", "checker.Check", "conf.FieldsFromStruct", "checker.dereference", "checker.visitor.FunctionNode"} {
 		f2, ct := w.Func(n), w.Contracts[n]
 		if f2 == nil || ct == nil {
 			res.Obls = append(res.Obls, missingObl(n+"/exists", "function or contract missing"))
@@ -483,7 +483,7 @@ func genCheckerPointer(w *World, res *CheckResult) {
 			if strings.Contains(o.Name, "/safe:") {
 				continue
 			}
-			if (n == "checker.visitor.checkFunc" || n == "checker.visitor.BuiltinNode" || n == "checker.Check") && strings.Contains(o.Name, "/call-pre:") {
+			if (n == "checker.visitor.checkFunc" || n == "checker.visitor.BuiltinNode" || n == "checker.Check" || n == "checker.visitor.FunctionNode") && strings.Contains(o.Name, "/call-pre:") {
 				continue // non-nil argument nodes across calls of visit (assigns *): a tree-shape fact, not decided here
 			}
 			res.Obls = append(res.Obls, o)
